@@ -421,4 +421,16 @@ Example C10_byte_recover_old_refuted :
             tail_get w (fs_file fx_st) 3 = ROk fx_b3 /\
             recover_state_old fx_info (fs_file fx_st) <> recover_state fx_info (fs_file fx_st).
 Proof. exact recover_old_refuted. Qed.
+
+(* The composition of this per-file law with the WAL-level histories of this file
+   (fault_safety_stmt: counted faults, fault modes, FRestart) is in Props/Link.v,
+   section 8 (link3): every history with injected faults has a byte-level run
+   (Link_fault_history: lock-step byte actions keep the weak relation "image, then
+   anything"; at every restart the byte-level recovery of every file -- fail_recover
+   above -- gives back the strong relation to adopt_disk, under stale_free =
+   no_stale_commit for every file); GetLog of the running process and every entry
+   of the nominal state of fault_safety are the decoding of what the byte-level
+   readers return (Link_fault_get_log, Link_fault_nominal_bytes); the recovered
+   byte-level writer represents the tail writer Open installs
+   (Link_fault_restart_recovered). *)
 (* ===== END block "byte level" ===== *)
